@@ -3051,6 +3051,11 @@ bool SGXMLScanner::normalizeAttRawValue( const   XMLCh* const        attrName
 //  upon successful return from here we are ready to go.
 void SGXMLScanner::scanReset(const InputSource& src)
 {
+    //  The ReaderMgr is normally flushed on the way out of a scan, but the
+    //  readers of a progressive scan that was given up without parseReset()
+    //  are still there: the new document must not be stacked on top of them.
+    fReaderMgr.reset();
+
 
     //  This call implicitly tells us that we are going to reuse the scanner
     //  if it was previously used. So tell the validator to reset itself.
